@@ -440,11 +440,15 @@ func (e *Env) Invoke(faults bool) Outcome {
 	case "copygraph":
 		src := e.Src.(content.ReadOnlyStorage)
 		return Outcome{Err: oras.CopyGraph(ctx, src, e.Dst, root.PushDesc(), e.graphOptions())}
-	case "copy", "copy-blankdst", "copy-maproot":
+	case "copy", "copy-blankdst", "copy-maproot", "copy-digestdst":
 		opts := oras.CopyOptions{CopyGraphOptions: e.graphOptions()}
 		dstRef := DstRef
 		if c.API == "copy-blankdst" {
 			dstRef = ""
+		}
+		if c.API == "copy-digestdst" {
+			// the destination reference is the root's digest
+			dstRef = root.Desc.Digest.String()
 		}
 		if c.API == "copy-maproot" {
 			to := e.D.Nodes[e.D.Nodes[c.MapTo].Canon]
